@@ -58,10 +58,14 @@ class Contract:
         start_at=None,
         volatile=(),
         body_of_loop=None,
+        region=None,
         cuts=None,
         slices=1,
     ):
         self.target = target
+        # several region contracts may sit on one function: the registry key is then "<function>#<region name>"
+        self.region = region
+        self.key = target if region is None else f"{target}#{region}"
         self.params = dict(params or {})
         self.returns = returns
         self.requires = list(requires)
@@ -110,9 +114,9 @@ class Registry:
         self.lemmas = {}
 
     def add(self, c):
-        if c.target in self.contracts:
-            raise ValueError(f"duplicate contract for {c.target}")
-        self.contracts[c.target] = c
+        if c.key in self.contracts:
+            raise ValueError(f"duplicate contract for {c.key}")
+        self.contracts[c.key] = c
         return c
 
     def fields(self, **kw):
